@@ -65,6 +65,9 @@ def _parse_print(line):
     return "".join(out)
 
 
+TLAPS_LIB = "/opt/veriftools/tlapm/lib/tlapm/stdlib/TLAPS.tla"
+
+
 def tlc(module, cfg, constants=None, workers=None, timeout=900, simulate=None,
         env=None, coverage=False, deadlock=False, extra=None, keep=False):
     """Run TLC on specs/<module>.tla.
@@ -82,6 +85,8 @@ def tlc(module, cfg, constants=None, workers=None, timeout=900, simulate=None,
         for fn in os.listdir(SPECS):
             if fn.endswith(".tla"):
                 os.symlink(os.path.join(SPECS, fn), os.path.join(tmp, fn))
+        if os.path.exists(TLAPS_LIB):        # modules checked by the proof system may be INSTANCEd by modules TLC runs
+            os.symlink(TLAPS_LIB, os.path.join(tmp, "TLAPS.tla"))
         run_module = module
         if constants:
             # constants are arbitrary TLA+ expressions: wrap in an MC module
